@@ -42,7 +42,7 @@ CHECKS = {
   "DESIGN.md §5 C11"),
  "C13": ("enum",
   "exhaustive enumeration of echo-request inputs injected into the real stack; every emitted frame matched against outstanding requests by an independent decoder",
-  "ICMPv4 and ICMPv6 echo requests: every payload length 0..1472 (1452) x 2 fill patterns, identifier x sequence over {0,1,0x7fff,0x8000,0xffff}^2, destinations {own A1, own A2, foreign, unassigned}, fragmented requests of 2200 and 3700 bytes in every 8-byte-aligned cut (step 56, thorough 8) into 2-3 fragments in every arrival order, bursts of {1,9,10,11,14} injected before the replier runs. Oracles: each reply matches one unanswered request (identifier, sequence, payload), comes from the pinged address to the requester with a valid checksum; at most one reply per request, all answered while fewer than ten are pending; nothing for foreign/unassigned destinations.",
+  "ICMPv4 and ICMPv6 echo requests: every payload length 0..1472 (1452) x 2 fill patterns, identifier x sequence over {0,1,0x7fff,0x8000,0xffff}^2, destinations {own A1, own A2, foreign, unassigned}, fragmented requests of 2200 and 3700 bytes in every 8-byte-aligned cut (step 56, thorough 8) into 2-3 fragments in every arrival order, bursts of {1,9,10,11,14} injected before the replier runs, requests handed over as two buffers cut at every position inside the payload (lengths 5, 64, 65). Oracles: each reply matches one unanswered request (identifier, sequence, payload), comes from the pinged address to the requester with a valid checksum; at most one reply per request, all answered while fewer than ten are pending; nothing for foreign/unassigned destinations.",
   "Known finding D11 (no IPv6 reassembly).",
   "DESIGN.md §5 C13"),
  "C08": ("seqx+coop",
